@@ -3,7 +3,7 @@ import io
 import json
 
 import gen
-from common import realize, circ_from_json, circ_to_json, err_name
+from common import with_users, realize, circ_from_json, circ_to_json, err_name
 from props.evalcommon import py_exec
 
 RULE = ('(a) random circuits through the public API: format-conforming ones (unary NOT/IFF, binary gates, '
@@ -181,6 +181,36 @@ def correspondence(ctx):
 CODEC_ERRORS = {'CircuitEncodingError', 'BitIOError'}
 
 
+def check_codec(ctx, j, conforming, brief=None):
+    inp = brief if brief is not None else {'c': j}
+    a = py_encode(j)
+    if 'err' in a:
+        if a['err'] not in CODEC_ERRORS:
+            ctx.violation('encode.wrong_error', f'encode_circuit raised {a["err"]}, not a database-codec error', input=inp)
+        elif conforming:
+            ctx.violation('encode.rejects_conforming', f'encode_circuit raised {a["err"]} on a circuit using only the format\'s types and arities',
+                          input=inp)
+        return
+    d = py_decode(a['ok'])
+    if 'err' in d:
+        ctx.violation('decode.fails_after_encode', f'encode succeeded but decode raised {d["err"]}', input=inp)
+        return
+    dj = d['ok']
+    if (len(dj['inputs']), len(dj['outputs']), len(dj['gates'])) != (len(j['inputs']), len(j['outputs']), len(j['gates'])):
+        ctx.violation('codec.counts', 'decoded circuit has different numbers of inputs/outputs/gates', input=inp)
+        return
+    if len(j['inputs']) <= 6:
+        t1 = py_exec({'op': 'truth_table', 'c': j})
+        t2 = py_exec({'op': 'truth_table', 'c': dj})
+        if t1 != t2:
+            ctx.violation('codec.truth_table', f'decoded circuit computes {t2}, original {t1}', input=inp)
+            return
+        g1 = py_exec({'op': 'gates_tt', 'c': j})
+        g2 = py_exec({'op': 'gates_tt', 'c': dj})
+        if 'ok' in g1 and 'ok' in g2 and sorted(v for _, v in g1['ok']) != sorted(v for _, v in g2['ok']):
+            ctx.violation('codec.gate_for_gate', 'per-gate truth tables differ (as multisets)', input=inp)
+
+
 def search(ctx):
     rng = ctx.rng('search')
     for k in range(ctx.scale(500, 12000)):
@@ -190,32 +220,17 @@ def search(ctx):
             continue
         j = realize(j)
         ctx.case(json.dumps(['s', j['gates'], j['inputs'], j['outputs']]), len(j['gates']) > 0)
-        a = py_encode(j)
-        if 'err' in a:
-            if a['err'] not in CODEC_ERRORS:
-                ctx.violation('encode.wrong_error', f'encode_circuit raised {a["err"]}, not a database-codec error', input={'c': j})
-            elif conforming:
-                ctx.violation('encode.rejects_conforming', f'encode_circuit raised {a["err"]} on a circuit using only the format\'s types and arities',
-                              input={'c': j})
-            continue
-        d = py_decode(a['ok'])
-        if 'err' in d:
-            ctx.violation('decode.fails_after_encode', f'encode succeeded but decode raised {d["err"]}', input={'c': j})
-            continue
-        dj = d['ok']
-        if (len(dj['inputs']), len(dj['outputs']), len(dj['gates'])) != (len(j['inputs']), len(j['outputs']), len(j['gates'])):
-            ctx.violation('codec.counts', 'decoded circuit has different numbers of inputs/outputs/gates', input={'c': j})
-            continue
-        if len(j['inputs']) <= 6:
-            t1 = py_exec({'op': 'truth_table', 'c': j})
-            t2 = py_exec({'op': 'truth_table', 'c': dj})
-            if t1 != t2:
-                ctx.violation('codec.truth_table', f'decoded circuit computes {t2}, original {t1}', input={'c': j})
-                continue
-            g1 = py_exec({'op': 'gates_tt', 'c': j})
-            g2 = py_exec({'op': 'gates_tt', 'c': dj})
-            if 'ok' in g1 and 'ok' in g2 and sorted(v for _, v in g1['ok']) != sorted(v for _, v in g2['ok']):
-                ctx.violation('codec.gate_for_gate', 'per-gate truth tables differ (as multisets)', input={'c': j})
+        check_codec(ctx, j, conforming)
+    # long dependency chains, stored sink first and source first (the encoder must not depend on the stack depth)
+    for depth in (1500, 3000):
+        for sink_first in (True, False):
+            chain = [['n%d' % i, 'NOT', ['n%d' % (i - 1) if i else 'x']] for i in range(depth)]
+            if sink_first:
+                chain.reverse()
+            j = with_users({'gates': [['x', 'INPUT', []]] + chain, 'inputs': ['x'], 'outputs': ['n%d' % (depth - 1)], 'blocks': []})
+            ctx.case(json.dumps(['chain', depth, sink_first]))
+            ctx.count('deep_chain')
+            check_codec(ctx, j, True, brief={'chain_of_not_gates': depth, 'stored_sink_first': sink_first})
     # bit level and dictionary level, implementation only
     for k in range(ctx.scale(300, 6000)):
         writes = [[rng.randrange(1 << w) if w else 0, w] for w in (rng.choice([1, 2, 5, 8, 13, 16, 24, 32]) for _ in range(rng.randint(1, 6)))]
